@@ -34,6 +34,14 @@ def fr(x):
     return str(x.numerator) if x.denominator == 1 else "%d/%d" % (x.numerator, x.denominator)
 
 
+def parse_dyadic(t):
+    """exact value of a harness number: integer, a/b, or m:e (= m·2^e)"""
+    if ":" in t:
+        m, e = t.split(":")
+        return Fraction(int(m)) * Fraction(2) ** int(e)
+    return Fraction(t)
+
+
 def mat_text(rows):
     return ";".join(",".join(fr(v) for v in r) for r in rows)
 
